@@ -572,7 +572,12 @@ def _run(plan):
 
 
 def execute(plan):
-    res = run_isolated(_run, plan)
+    if plan.get("cold"):
+        from ..driver import cold_run
+
+        res = cold_run(NAME, plan)
+    else:
+        res = run_isolated(_run, plan)
     st = res["stats"]
     counters = dict(st)
     counters["runs_fault_injecting" if (st.get("fault:alias:fired") or st.get("fault:rejected_call:fired"))
